@@ -1,6 +1,7 @@
 /- driver ops for property C15 (model side of the correspondence) -/
 import Rsa.Core.Wire
 import Rsa.Core.Unbalanced
+import Rsa.Core.C15Layout
 
 open Lean Rsa.Wire Rsa.Unb
 
@@ -30,18 +31,17 @@ def matAt (m : Array (Array (Option α))) (k l : Nat) : α :=
   | some v => v
   | none => 0
 
-/-- kernel of two observation vectors for a method -/
-def kernOf (method : String) (coded : Bool) (P : Nat) (noise : Option (Nat → Nat → α))
+/-- kernel of two observation vectors for a `method_idx`, selected through the generated
+    dispatch table of `calc` (`kernCode`) -/
+def kernOf (idx : Nat) (coded : Bool) (P : Nat) (noise : Option (Nat → Nat → α))
     (lam pw : α) (x y : Nat → Option α) : R (α × α) :=
-  match method with
-  | "euclidean" => pure (euclidK P x y)
-  | "correlation" => pure (corrK coded P x y)
-  | "mahalanobis" =>
-    match noise with
-    | none => pure (euclidK P x y)
-    | some N => pure (mahalK coded P N x y)
-  | "poisson" => pure (poissonK P (poissonPrep lam pw x) (poissonPrep lam pw y))
-  | m => throw s!"unknown method {m}"
+  let N : Nat → Nat → α := match noise with | some m => m | none => idN
+  match kernByCode (kernCode idx noise.isSome) coded P N lam pw x y with
+  | some r => pure r
+  | none => throw s!"dissimilarity method not recognized! ({idx})"
+
+def needsFloat (method : String) : Bool :=
+  method == "correlation" || method == "poisson" || method == "poisson_cv"
 
 def table (n m : Nat) (f : Nat → Nat → R (α × α)) : R (Array (α × α)) := do
   let mut t : Array (α × α) := Array.mkEmpty (n * m)
@@ -65,8 +65,15 @@ def run (exact : Bool) (rd : Json → R α) (wr : α → Json) (j : Json) : R Js
   let noiseA ← asOpt (rows rd) noiseJ
   let bal ← asStr (fldD j "bal" (Json.str "none"))
   let nF ← asNat (fldD j "F" (Json.num 0))
-  if exact && (method == "correlation" || method == "poisson") then
+  if exact && needsFloat method then
     throw "exact mode has no sqrt/log"
+  let cvGiven ← asBool (fldD j "cv_given" (Json.bool folds.isSome))
+  let idx ← match methodIdx method with
+    | some k => pure k
+    | none => throw s!"Unknown method: {method}"
+  let cvFlag ← match crossvalFlag method cvGiven with
+    | some k => pure k
+    | none => throw s!"Unknown method: {method}"
   let nObs := data.size
   if labels.length ≠ nObs then throw "labels length"
   let uniq := firstAppearance labels
@@ -74,14 +81,15 @@ def run (exact : Bool) (rd : Json → R α) (wr : α → Json) (j : Json) : R Js
   let n := uniq.length
   let X : Nat → Nat → Option α := at2 data
   let noise : Option (Nat → Nat → α) := noiseA.map matAt
-  let tbl ← table nObs nObs (fun i k => kernOf method coded P noise lam pw (X i) (X k))
+  let code := kernCode idx noise.isSome
+  let tbl ← table nObs nObs (fun i k => kernOf idx coded P noise lam pw (X i) (X k))
   let fa : Array Nat := match folds with
     | some f => f.toArray
     | none => (List.range nObs).toArray
   let half : α := if coded then ofInt Rsa.Gen.C15.selfWEqual else 1 / two
   let cfg : Cfg α := {
     nObs := nObs, n := n, desc := fun i => cds[i]!, cv := fun i => fa[i]!,
-    crossval := folds.isSome, number := number,
+    crossval := cvFlag != 0, number := weightIdx number == 1,
     kern := fun i k => tbl[i * nObs + k]!, half := half }
   let buf := calcLoop cfg
   let outA := ((List.range (Rsa.Gen.C15.nRdm n + n)).map (finalize buf)).toArray
@@ -104,9 +112,9 @@ def run (exact : Bool) (rd : Json → R α) (wr : α → Json) (j : Json) : R Js
     else if bal == "single" then
       -- one observation per condition: observation of code a
       let obsOf : Nat → Nat := fun a => (cds.toList.idxOf a)
-      if method == "correlation" then
+      if code == 2 then
         prs.map (fun ab => balCorr P (V (obsOf ab.1)) (V (obsOf ab.2)))
-      else if method == "poisson" then
+      else if code == 4 then
         let D : Nat → Nat → α := fun i c => match poissonPrep lam pw (X i) c with
           | some dl => dl.1 | none => 0
         let L : Nat → Nat → α := fun i c => match poissonPrep lam pw (X i) c with
@@ -116,7 +124,7 @@ def run (exact : Bool) (rd : Json → R α) (wr : α → Json) (j : Json) : R Js
         let m := condMean nObs cfg.desc V
         prs.map (fun ab => balMahal P N m ab.1 ab.2)
     else if bal == "cv" then
-      if method == "poisson" then
+      if code == 4 then
         let D : Nat → Nat → α := fun i c => match poissonPrep lam pw (X i) c with
           | some dl => dl.1 | none => 0
         let L : Nat → Nat → α := fun i c => match poissonPrep lam pw (X i) c with
@@ -149,15 +157,19 @@ def runOne (exact : Bool) (rd : Json → R α) (wr : α → Json) (j : Json) : R
   let lam ← rd (fldD j "lam" (Json.num 1))
   let pw ← rd (fldD j "pw" (Json.num 0))
   let noiseA ← asOpt (rows rd) (fldD j "noise" Json.null)
-  if exact && (method == "correlation" || method == "poisson") then
+  if exact && needsFloat method then
     throw "exact mode has no sqrt/log"
+  let idx ← match oneMethodIdx method with
+    | some k => pure k
+    | none => throw s!"Unknown method: {method}"
   let noise : Option (Nat → Nat → α) := noiseA.map matAt
   let ni := di.size
   let nj := dj.size
-  let tbl ← table ni nj (fun i k => kernOf method coded P noise lam pw (at2 di i) (at2 dj k))
+  let tbl ← table ni nj (fun i k => kernOf idx coded P noise lam pw (at2 di i) (at2 dj k))
   let ca := cvi.toArray
   let cb := cvj.toArray
-  let r := calcOne ni nj (fun i => ca[i]!) (fun i => cb[i]!) number (fun i k => tbl[i * nj + k]!)
+  let r := calcOne ni nj (fun i => ca[i]!) (fun i => cb[i]!) (oneWeightIdx number == 1)
+    (fun i k => tbl[i * nj + k]!)
   pure (Json.arr #[ofOpt wr r.1, wr r.2])
 
 end generic
@@ -184,12 +196,38 @@ def runIdx (j : Json) : R Json := do
   let b ← fld j "b" >>= asNat
   pure (obj [("key", ofNat (pairKey n a b)), ("nrdm", ofNat (Rsa.Gen.C15.nRdm n))])
 
+/-- memory layout / dtype: what the kernel reads from `ensure_double(array)` for an array given
+    as flat buffer + offset + strides (elements); floats (null = NaN) or integers -/
+def runLayout (j : Json) : R Json := do
+  let ints ← asBool (fldD j "ints" (Json.bool false))
+  let off ← fld j "off" >>= asInt
+  let s0 ← fld j "s0" >>= asInt
+  let s1 ← fld j "s1" >>= asInt
+  let n ← fld j "n" >>= asNat
+  let P ← fld j "P" >>= asNat
+  let conv : View (Option Float) ←
+    if ints then do
+      let b ← fld j "buf" >>= asList asInt
+      let a := b.toArray
+      let v : View Int := { buf := fun k => a[k]!, off := off, s0 := s0, s1 := s1 }
+      pure (ensureDouble (castInt (α := Float)) n P v)
+    else do
+      let b ← fld j "buf" >>= asList (asOpt asFloat)
+      let a := b.toArray
+      let v : View (Option Float) := { buf := fun k => (a[k]?).join, off := off, s0 := s0, s1 := s1 }
+      pure (ensureDouble id n P v)
+  let X := kernelInput n P conv
+  pure (obj [
+    ("s0", ofInt conv.s0), ("s1", ofInt conv.s1),
+    ("read", ofList (fun i => ofList (fun c => ofOpt ofFloat (X i c)) (List.range P)) (List.range n))])
+
 def handle : Handler := fun op j =>
   match op with
   | "c15.calc" => some (dispatchMode (fun ex rd wr j => run ex rd wr j) j)
   | "c15.one" => some (dispatchMode (fun ex rd wr j => runOne ex rd wr j) j)
   | "c15.codes" => some (runCodes j)
   | "c15.idx" => some (runIdx j)
+  | "c15.layout" => some (runLayout j)
   | _ => none
 
 end Rsa.Drv.C15
